@@ -216,7 +216,14 @@ def per_harness_results(text):
                 out.setdefault(cur[th], [None, 0.0])[1] = float(m.group(1))
             if "timed out" in line or "CBMC failed" in line:
                 out.setdefault(cur[th], ["TIMEOUT", 0.0])[0] = "TIMEOUT"
+            m = re.search(r'\*\* (\d+) of (\d+) cover properties satisfied', line)
+            if m and int(m.group(1)) < int(m.group(2)):
+                COVER_MISS.add(cur[th])
     return {k: tuple(v) for k, v in out.items()}
+
+
+# harnesses whose result block reported an unsatisfied cover property (filled by per_harness_results)
+COVER_MISS = set()
 
 
 def _classify_failed(desc):
@@ -368,9 +375,11 @@ def _finish_group(r, label, hs, featset, text, failed_names, times, n_batch, job
         for a_ in h.assumes:
             r.assumptions.append("harness %s: %s" % (h.name, a_))
         if h.name not in failed_names:
-            if covers_bad:
+            # vacuity guard: an unsatisfied cover property taints the harness it belongs to (the whole group when the
+            # result blocks cannot be attributed, i.e. without -j)
+            if covers_bad and (h.name in COVER_MISS or not (COVER_MISS & {x.name for x in hs})):
                 r.obls.append(Obl(oname, label, "kani-cbmc", "undecided", bounded=h.bound,
-                                  detail="vacuity guard: a cover property in this group is unreachable: %s" % covers_bad))
+                                  detail="vacuity guard: a cover property of this harness is unreachable: %s" % covers_bad))
                 continue
             r.obls.append(Obl(oname, label, "kani-cbmc", "discharged", bounded=h.bound, count=1, sample=h.doc))
             r.samples.append({"harness": h.name, "features": FEATURE_SETS[featset] or "default",
